@@ -86,7 +86,7 @@ def step_violations(sim, op, result, before):
             out.append(("orig", "original %r became %r" % (old[id(it)][1], it.original_mnemonic)))
     new = [it for it in lst if id(it) not in old]
     c = op[0]
-    if c in INSERTING and result.startswith("ok"):
+    if c in INSERTING and result.startswith("ok") and new:
         name = {"a": 1, "i": 2, "r": 2, "s": 2, "x": 2, "g": 1, "h": 1}[c]
         if len(new) > 1:
             out.append(("insert", "more than one new item"))
